@@ -139,6 +139,16 @@ CLAIMED = {
              'byte offsets of the last write).',
         note='T3-fs (file system and json modelled); composition over histories is bounded-checked, not proved; three defects fixed in /repo (7b54f3f, 458941b)',
         ref='5 C20'),
+    'C07': dict(
+        text='per family function: encoder == RFC reference encoding and decoder(reference encoding) == value, every numeric field symbolic: '
+             'IPv6 unicast (28 prefix lengths covering every residue mod 8 and the octet boundaries, add-path), prefix / label-stack / '
+             'route-distinguisher helpers, IPv4/IPv6 labeled unicast (label stacks of 1..3, withdraw form), VPNv4/VPNv6 (RD types 0/1/2, one label), '
+             'EVPN ESI types 0..5 and route types 1-4 (MAC/IP presence, one or two labels), IPv4 flowspec (prefixes of every length, '
+             '=,>,<,>=,<= on 1/2/4-octet values, components 3..8, 10, 11), and the MP_REACH / MP_UNREACH envelope with and without '
+             'link-local next hop for each family. Eleven defects found by these contracts were repaired in /repo; label 0 as last label is an open known finding.',
+        note='shapes (list lengths, prefix-length sets for IPv6, one route per family in the envelope units) enumerated, values symbolic; '
+             'EVPN route type 5, IPv6 flowspec, SR-TE and BGP-LS NLRI are outside the property or not under contract; flowspec bitmask components (9, 12) not covered',
+        ref='5 C07'),
 }
 checks = []
 for pid, c in CLAIMED.items():
